@@ -35,6 +35,8 @@ type Case struct {
 	Prog      []interface{} `json:"prog"`
 	Exp       *vmrun.Obs    `json:"exp"`
 	Unordered bool          `json:"unordered"`
+	// the concurrent runs come BEFORE the sequential ones: whatever the interpreter builds on first use is then first used concurrently
+	ConcFirst bool `json:"concfirst"`
 	// environments that differ in what the type name "num" means: the same tree is run in each of them
 	Variants []string `json:"variants"`
 	// a copy of an environment is independent: Src (= B) in the base after S0, with and without A having run in a copy of the base
@@ -289,26 +291,38 @@ func main() {
 		}
 		d0 := vmrun.Digest(stmt)
 		obs := make([]vmrun.Obs, 2+nconc)
-		for k := 0; k < 2; k++ {
-			obs[k], _ = vmrun.Run(context.Background(), stmt, nil)
-			sum.Runs++
+		sequential := func() {
+			for k := 0; k < 2; k++ {
+				obs[k], _ = vmrun.Run(context.Background(), stmt, nil)
+				sum.Runs++
+				if d := vmrun.Digest(stmt); d != d0 {
+					add(Mismatch{ID: c.ID, Kind: "isolation", What: fmt.Sprintf("tree digest changed by run %d", k+1), Src: src})
+					d0 = d
+				}
+			}
+		}
+		concurrent := func() {
+			var wg sync.WaitGroup
+			for k := 0; k < nconc; k++ {
+				wg.Add(1)
+				go func(k int, s ast.Stmt) {
+					defer wg.Done()
+					obs[2+k], _ = vmrun.Run(context.Background(), s, nil)
+				}(k, stmt)
+			}
+			wg.Wait()
+			sum.Runs += nconc
 			if d := vmrun.Digest(stmt); d != d0 {
-				add(Mismatch{ID: c.ID, Kind: "isolation", What: fmt.Sprintf("tree digest changed by run %d", k+1), Src: src})
+				add(Mismatch{ID: c.ID, Kind: "isolation", What: "tree digest changed by concurrent runs", Src: src})
 				d0 = d
 			}
 		}
-		var wg sync.WaitGroup
-		for k := 0; k < nconc; k++ {
-			wg.Add(1)
-			go func(k int, s ast.Stmt) {
-				defer wg.Done()
-				obs[2+k], _ = vmrun.Run(context.Background(), s, nil)
-			}(k, stmt)
-		}
-		wg.Wait()
-		sum.Runs += nconc
-		if d := vmrun.Digest(stmt); d != d0 {
-			add(Mismatch{ID: c.ID, Kind: "isolation", What: "tree digest changed by concurrent runs", Src: src})
+		if c.ConcFirst {
+			concurrent()
+			sequential()
+		} else {
+			sequential()
+			concurrent()
 		}
 		if obs[0].Cls == "panic" {
 			add(Mismatch{ID: c.ID, Kind: "panic", What: obs[0].V.S, Src: src})
